@@ -58,12 +58,16 @@ FixedProg == File1(<<>>, <<>>, <<
    Var("y", [k |-> "arr", es |-> <<I(1), I(2), I(3)>>]),
    ExprS(MCall(V("y"), "push", <<V("x")>>)),
    PrintS(Bin("..", Bin("..", V("x"), S(" ")), MCall(V("y"), "len", <<>>))),
-   If(Bin(">", V("x"), I(3)), <<PrintS(S("big"))>>, <<PrintS(S("small"))>>) >>)
+   If(Bin(">", V("x"), I(3)), <<PrintS(S("big"))>>, <<PrintS(S("small"))>>),
+   \* initialisers that begin with a prefix operator (a comment / line break may stand between `=` and the operator)
+   Let("nb", [k |-> "not", e |-> Bin(">", V("x"), I(3))]),
+   Let("ny", [k |-> "neg", e |-> V("x")]),
+   PrintS(Bin("..", Bin("..", V("nb"), S(" ")), V("ny"))) >>)
 FixedLines(u) == LayFile(FixedProg.files[1]).lines
 RECURSIVE JoinNl(_)
 JoinNl(ls) == IF ls = <<>> THEN "" ELSE ls[1] \o "\n" \o JoinNl(Tail(ls))
 BlockPoints == <<"inside-expression", "own-line", "file-start", "line-end", "file-end-no-newline", "before-else">>
-LinePoints == <<"line-end", "own-line", "file-end-no-newline", "after-open-brace">>
+LinePoints == <<"line-end", "own-line", "file-end-no-newline", "after-open-brace", "before-not", "before-neg">>
 Replace1(s, old, new) ==      \* the first occurrence of old in s replaced by new
   LET i == CHOOSE j \in 1..(Len(s) - Len(old) + 1) : /\ SubSeq(s, j, j + Len(old) - 1) = old
                                                       /\ \A h \in 1..(j - 1) : SubSeq(s, h, h + Len(old) - 1) # old
@@ -81,6 +85,8 @@ PlaceLine(c, pt) ==
     [] pt = "own-line"  -> Replace1(Canon(0), "var y", c \o "\nvar y")
     [] pt = "file-end-no-newline" -> Canon(0) \o c
     [] pt = "after-open-brace" -> Replace1(Canon(0), "3 {\n", "3 { " \o c \o "\n")
+    [] pt = "before-not" -> Replace1(Canon(0), "let nb = not", "let nb = " \o c \o "\n  not")
+    [] pt = "before-neg" -> Replace1(Canon(0), "let ny = -", "let ny = " \o c \o "\n  -")
 ExCases(n) == {[k |-> "block", body |-> b, pt |-> BlockPoints[p]] : b \in Bodies(n), p \in 1..Len(BlockPoints)}
               \cup {[k |-> "line", body |-> t, pt |-> LinePoints[p]] : t \in LineTexts(n), p \in 1..Len(LinePoints)}
               \cup {[k |-> "base", body |-> "", pt |-> ""]}
